@@ -391,6 +391,67 @@ int main(int argc, char ** argv)
     check_case<true>(c, f, fo, lv, s, gs);
   });
 
+  // ---- E2. several arguments of mixed static / dynamic size in every position (the column / block offsets of the
+  // arguments that FOLLOW a dynamic-size argument depend on its run-time size)
+  rep.run_stream("mixed_static_dynamic", NQ(rep, 90, 2400), [&](Rng & r, long i) {
+    const int n = 1 + r.below(3);
+    std::vector<SO3d> hs;
+    std::vector<Slot> sh;
+    Vec call(4 * n);
+    for (int k = 0; k < n; ++k) {
+      Vec ck;
+      hs.push_back(mod_elem<SO3d>(*lso3, r, ck));
+      sh.push_back({lso3, lso3->matrix(ck)});
+      call.segment(4 * k, 4) = ck;
+    }
+    Vec cg;
+    SO3d g            = mod_elem<SO3d>(*lso3, r, cg);
+    Eigen::Vector3d p = vec_coords(r, 3);
+    Eigen::VectorXd w = vec_coords(r, 3);  // dynamic-size vector of length 3
+    const LayoutP lv  = orc::L_Tn(3);
+    const int variant = int(i % 3);
+    CaseCtx c{rep, "mixed_static_dynamic", std::string(variant == 0 ? "(SO3,vector<SO3>,R3)" : (variant == 1 ? "(RXd,SO3)" : "(vector<SO3>,R3,RXd)")) + ",n=" + std::to_string(n),
+      [&]() { return JObj().integer("n", n).raw("hs", hexv(call)).raw("g", hexv(cg)).raw("p", hexv(p)).raw("w", hexv(w)).done(); }};
+    rep.note_input(Report::hash_vec(call, Report::hash_vec(cg, Report::hash_vec(toL(p)))), true);
+    auto vecpart = [](const Mat & T) { return Vec(T.block(0, 3, 3, 1)); };
+    if (variant == 0) {
+      auto f = [](const auto & gg, const auto & hh, const auto & pp) -> Eigen::Vector3d {
+        auto acc = gg;
+        for (const auto & h : hh) acc = acc * h;
+        return acc * pp;
+      };
+      OFun fo = [&](const std::vector<Mat> & m) {
+        Mat R = m[0];
+        for (int k = 0; k < n; ++k) R = R * m[size_t(1 + k)];
+        return lv->matrix(Vec(R * vecpart(m[size_t(1 + n)])));
+      };
+      std::vector<Slot> s{{lso3, lso3->matrix(cg)}};
+      for (auto & x : sh) s.push_back(x);
+      s.push_back({lv, Tmat(p)});
+      check_case<true>(c, f, fo, lv, s, g, hs, p);
+    } else if (variant == 1) {
+      auto f  = [](const auto & ww, const auto & gg) -> Eigen::Vector3d { return gg * Eigen::Vector3d(ww); };
+      OFun fo = [&](const std::vector<Mat> & m) { return lv->matrix(Vec(m[1] * vecpart(m[0]))); };
+      std::vector<Slot> s{{lv, Tmat(w)}, {lso3, lso3->matrix(cg)}};
+      check_case<true>(c, f, fo, lv, s, w, g);
+    } else {
+      auto f = [](const auto & hh, const auto & pp, const auto & ww) -> Eigen::Vector3d {
+        SO3d acc = SO3d::Identity();
+        for (const auto & h : hh) acc = acc * h;
+        return acc * (pp + Eigen::Vector3d(ww));
+      };
+      OFun fo = [&](const std::vector<Mat> & m) {
+        Mat R = orc::eye(3);
+        for (int k = 0; k < n; ++k) R = R * m[size_t(k)];
+        return lv->matrix(Vec(R * (vecpart(m[size_t(n)]) + vecpart(m[size_t(n + 1)]))));
+      };
+      std::vector<Slot> s = sh;
+      s.push_back({lv, Tmat(p)});
+      s.push_back({lv, Tmat(w)});
+      check_case<true>(c, f, fo, lv, s, hs, p, w);
+    }
+  });
+
   // ---- F. Bundle argument
   rep.run_stream("bundle_arg", NQ(rep, 60, 1500), [&](Rng & r, long) {
     using B = Bundle<SO3d, Eigen::Vector3d>;
